@@ -50,7 +50,8 @@ def cases(tier, seed):
         cs.append({'scen': 'rank_chop_kernel', 's': {'n': n}})
         cs.append({'scen': 'rank_chop_kernel', 's': {'n': n, 'thr_positive': True}})
     # ---- S: sweep on the SO class
-    shapes = [[3], [2, 2], [2, 3], [3, 1], [1, 3], [2, 2, 2], [2, 2, 3], [3, 2, 2], [2, 1, 2], [1, 2, 2], [2, 2, 1], [3, 3, 3], [2, 2, 2, 2], [2, 1, 2, 2]]
+    shapes = [[3], [2, 2], [2, 3], [3, 1], [1, 3], [2, 2, 2], [2, 2, 3], [3, 2, 2], [2, 1, 2], [1, 2, 2], [2, 2, 1], [3, 3, 3], [2, 2, 2, 2], [2, 1, 2, 2],
+              [3, 1, 3], [3, 3, 1], [1, 3, 3], [3, 1, 1, 3]]
     if th:
         shapes += [[2, 3, 2], [4, 2, 2], [2, 2, 4], [3, 2, 2, 2], [2, 2, 2, 3], [2, 2, 2, 2, 2], [1, 2, 2, 1, 2]]
     for shp in shapes:
